@@ -17,7 +17,26 @@
 #[path = "/repo/src/timing.rs"] pub mod timing;
 
 mod util;
-mod s_joy;
+mod s_c01;
+mod s_c02;
+mod s_c03;
+mod s_c04;
+mod s_c05;
+mod s_c06;
+mod s_c07;
+mod s_c08;
+mod s_c09;
+mod s_c10;
+mod s_c11;
+mod s_c12;
+mod s_c13;
+mod s_c14;
+mod s_c15;
+mod s_c16;
+mod s_c17;
+mod s_c18;
+mod s_c19;
+mod s_c20;
 
 use std::io::Write;
 
@@ -30,8 +49,32 @@ fn main() {
   let opts = util::Opts::parse(&args[2..]);
   let out = std::io::stdout();
   let mut w = std::io::BufWriter::with_capacity(1 << 20, out.lock());
-  match args[1].as_str() {
-    "joy" => s_joy::run(&opts, &mut w),
+  // stream names are "<pid>" or "<pid>.<sub>", e.g. "c20.addr"
+  let (pid, sub) = match args[1].find('.') {
+    Some(i) => (&args[1][..i], &args[1][i + 1..]),
+    None => (&args[1][..], ""),
+  };
+  match pid {
+    "c01" => s_c01::run(sub, &opts, &mut w),
+    "c02" => s_c02::run(sub, &opts, &mut w),
+    "c03" => s_c03::run(sub, &opts, &mut w),
+    "c04" => s_c04::run(sub, &opts, &mut w),
+    "c05" => s_c05::run(sub, &opts, &mut w),
+    "c06" => s_c06::run(sub, &opts, &mut w),
+    "c07" => s_c07::run(sub, &opts, &mut w),
+    "c08" => s_c08::run(sub, &opts, &mut w),
+    "c09" => s_c09::run(sub, &opts, &mut w),
+    "c10" => s_c10::run(sub, &opts, &mut w),
+    "c11" => s_c11::run(sub, &opts, &mut w),
+    "c12" => s_c12::run(sub, &opts, &mut w),
+    "c13" => s_c13::run(sub, &opts, &mut w),
+    "c14" => s_c14::run(sub, &opts, &mut w),
+    "c15" => s_c15::run(sub, &opts, &mut w),
+    "c16" => s_c16::run(sub, &opts, &mut w),
+    "c17" => s_c17::run(sub, &opts, &mut w),
+    "c18" => s_c18::run(sub, &opts, &mut w),
+    "c19" => s_c19::run(sub, &opts, &mut w),
+    "c20" => s_c20::run(sub, &opts, &mut w),
     other => {
       eprintln!("unknown stream {}", other);
       std::process::exit(2);
